@@ -197,7 +197,8 @@ def run(c):
     if q:
         designs += [("coarse3", dict(COARSE, attempts=3, tmos=[2]), False)]
     else:
-        designs += [("coarse4", dict(COARSE, attempts=4, tmos=[2], budgets=[0, 7]), False),
+        designs += [("coarse3", dict(COARSE, attempts=3), False),
+                    ("coarse4", dict(COARSE, attempts=4, tmos=[2], maxis=[4]), False),
                     ("fine3", dict(FINE, attempts=3, inits=[2], mult2s=[3, 4], maxis=[8], budgets=[0, 14], tmos=[4]), False)]
     for name, k, cov in designs:
         r = c.tlc_must_pass("RetrySender", "RetrySenderMC", cfg_text=mc_cfg(k), coverage=cov, timeout=2400,
